@@ -1,17 +1,20 @@
 #!/bin/bash
-# For every confirmed seeded change: apply it to /repo, run ALL checks in one
-# analyzer process, record which properties/rules fire, revert.  Writes
-# seeded/<id>/detected.json and prints a matrix line per seed.
+# For every stored seeded change: overlay the patched files on /repo's current
+# tree (no change to /repo), run ALL checks in one analyzer process, record which
+# properties/rules fire.  Writes seeded/<id>/detected.json, prints a line per seed.
 cd /verif
 export PATH="$PWD/bin/gobin:$PATH" GOFLAGS=-mod=mod GOPROXY=off GOSUMDB=off GOTOOLCHAIN=local GOWORK=off
 ( cd analyzer && go build -o ../bin/bleveverif . ) || exit 2
-if ! git -C /repo diff --quiet; then echo "/repo dirty"; exit 2; fi
 for d in seeded/*/; do
   id=$(basename $d)
+  [ -f "$d/patch.diff" ] || continue
   [ -n "$1" ] && [ "$1" != "$id" ] && continue
-  git -C /repo apply /verif/$d/patch.diff 2>/dev/null || { echo "$id PATCH-DOES-NOT-APPLY"; continue; }
-  out=$(./bin/bleveverif -prop all -repo /repo -verif /tmp/seedmatrix_verif 2>&1)
-  git -C /repo checkout -- .
+  tmp=$(mktemp -d /tmp/bleveverif-matrix.XXXXXX); mkdir -p "$tmp/ov" "$tmp/verif"; cp known_findings.json "$tmp/verif/"
+  okcopy=1
+  for f in $(grep -E '^\+\+\+ b/' "$d/patch.diff" | sed 's#^+++ b/##'); do mkdir -p "$tmp/ov/$(dirname "$f")"; cp "/repo/$f" "$tmp/ov/$f" 2>/dev/null || okcopy=0; done
+  if [ $okcopy = 0 ] || ! ( cd "$tmp/ov" && patch -p1 -s < "/verif/$d/patch.diff" >/dev/null 2>&1 ); then echo "$id PATCH-DOES-NOT-APPLY"; rm -rf "$tmp"; continue; fi
+  out=$(./bin/bleveverif -prop all -repo /repo -overlay-root "$tmp/ov" -verif "$tmp/verif" 2>&1)
+  rm -rf "$tmp"
   fired=$(echo "$out" | grep -E "^VIOLATION" | sed 's/.*property=\([A-Z0-9]*\).*/\1/' | sort -u | tr '\n' ' ')
   und=$(echo "$out" | grep -E "^UNDECIDED" | sed 's/.*property=\([A-Za-z0-9]*\).*/\1/' | sort -u | tr '\n' ' ')
   rules=$(echo "$out" | grep -E "^  violated" | sed 's/^  violated \([^ ]*\) at.*/\1/' | sort -u)
@@ -23,4 +26,3 @@ json.dump({"seed":idd,"violation_reported_by":fired,"undecided":und,"rules":rule
 PY
   echo "$id fired=[$fired] undecided=[$und]"
 done
-rm -rf /tmp/seedmatrix_verif
